@@ -113,6 +113,13 @@ fn conv_body<const L: usize>(f: fn(&[u8]) -> Vec<u8>) {
     let d = &buf[..];
     let base = d.as_ptr() as usize;
     let out = f(d);
+    if crate::fin::replay_mode() {
+        // native replay of a counterexample: Kani's playback does not apply the recording stand-in, so the
+        // append log is empty; judge the REAL output bytes against the reference conversion instead
+        let (exp, elen) = ref_conv::<L, 64>(d);
+        assert!(out.len() == elen && out[..] == exp[..elen], "native replay: converted bytes differ from the reference framing");
+        return;
+    }
     let (units, n) = ref_units(d);
     let mut k = 0usize;
     let mut a = 0usize;
@@ -123,7 +130,10 @@ fn conv_body<const L: usize>(f: fn(&[u8]) -> Vec<u8>) {
             unsafe {
                 assert!(a + 1 < APPEND_LOG_MAX);
                 assert!(APPEND_LOG[a].len == 4, "length prefix is not 4 bytes");
-                assert!(APPEND_LOG[a].head == [0, 0, 0, (e - s) as u8], "length prefix value differs");
+                // bytewise: `head == [..]` (raw_eq/memcmp on a field of a static array element) gave a spurious
+                // FAILED for the first two-unit length (8) that the same comparison spelled per byte does not
+                let hd = APPEND_LOG[a].head;
+                assert!(hd[0] == 0 && hd[1] == 0 && hd[2] == 0 && hd[3] == (e - s) as u8, "length prefix value differs");
                 assert!(APPEND_LOG[a + 1].addr == base + s, "appended unit does not start at the reference unit");
                 assert!(APPEND_LOG[a + 1].len == e - s, "appended unit length differs");
             }
@@ -135,7 +145,8 @@ fn conv_body<const L: usize>(f: fn(&[u8]) -> Vec<u8>) {
     if a == 0 && L > 0 {
         unsafe {
             assert!(APPEND_N == 2, "fallback must append exactly one record");
-            assert!(APPEND_LOG[0].len == 4 && APPEND_LOG[0].head == [0, 0, 0, L as u8], "fallback length prefix differs");
+            let hd = APPEND_LOG[0].head;
+            assert!(APPEND_LOG[0].len == 4 && hd[0] == 0 && hd[1] == 0 && hd[2] == 0 && hd[3] == L as u8, "fallback length prefix differs");
             assert!(APPEND_LOG[1].addr == base && APPEND_LOG[1].len == L, "fallback payload is not the whole input");
         }
         total = 4 + L;
